@@ -380,6 +380,12 @@ class Lowerer:
                 self.rule('explicit cast to narrower/other-signedness unsigned -> modular truncation')
                 if st.name in signed: return '((%s)(((long long)(%s)) & %s))' % (t.name, self.e(sub), masks[t.name])
                 return '((%s)(((unsigned long long)(%s)) & %s))' % (t.name, self.e(sub), masks[t.name].replace('ll', 'ull'))
+            if t.name == 'int' and st.name in ('unsigned long', 'unsigned long long', 'unsigned int') and not t.suf and not st.suf and self.side_effect_free(sub):
+                # explicit static_cast<int>(unsigned wider-or-equal): modular (two's complement) conversion -- implementation-defined before
+                # C++20 and defined so by GCC/Clang, guaranteed since C++20; a deliberate truncation, not an overflow
+                self.rule('explicit cast of an unsigned value to int -> two\'s complement wrap (deliberate truncation)')
+                x = self.e(sub)
+                return '(((unsigned long long)(%s) & 0xffffffffull) >= 0x80000000ull ? (int)((long long)((unsigned long long)(%s) & 0xffffffffull) - 0x100000000ll) : (int)((unsigned long long)(%s) & 0xffffffffull))' % (x, x, x)
         if ck == 'IntegralCast':
             # an IMPLICIT conversion of a signed value to an unsigned type that is at least as wide is well-defined (modular, C++ [conv.integral])
             # and loses nothing that a later comparison could not see: written as sign-extension + mask, not watched by --conversion-check.
@@ -474,6 +480,18 @@ class Lowerer:
                 if init and t.is_builtin:
                     decl = 'static const %s %s = %s;' % (t.name, name, self.e(init[0]))
                     if decl not in self.static_locals: self.static_locals.append(decl); self.rule('namespace-scope constant emitted')
+                elif init and not t.is_ptr and self.literal_only(init[0]):
+                    # const object built from literals only (e.g. static const QChar DEL_MARKER = QChar(0x200B)): its initialiser
+                    # expression, re-evaluated at each use (C has no dynamic initialisation; the constructor model is pure)
+                    mark4 = len(self.temps)
+                    try:
+                        ex = self.e(init[0])
+                        if len(self.temps) == mark4:
+                            decl = '#define %s (%s)   /* namespace-scope const object, literal initialiser */' % (name, ex)
+                            if decl not in self.static_locals: self.static_locals.append(decl); self.rule('namespace-scope const object with literal initialiser emitted')
+                    except Unsupported:
+                        pass
+                    del self.temps[mark4:]
             if rd['id'] in self.refs: return '(*%s)' % name
             return name
         if k in ('FunctionDecl', 'CXXMethodDecl'):
@@ -976,7 +994,7 @@ class Lowerer:
             self.rule('new T(args) of a repo class -> malloc + constructor')
             rq = self.rec_for(obj)
             if rq: self.need_struct(rq)
-            return '({ %s *_n = (%s *)malloc(sizeof(%s)); __CPROVER_assume(_n != 0); /* operator new never returns null (allocation failure is outside the model) */ %s; _n; })' % (obj.name, obj.name, obj.name, self.ctor_call(obj, '_n', ctor[0]))
+            return '({ %s *_n = VERIF_NEW(%s); %s; _n; })' % (obj.name, obj.name, self.ctor_call(obj, '_n', ctor[0]))
         args = self.drop_defaults(ctor[0].get('inner', [])) if ctor else []
         suffix = self.argsuffix(args)
         cname = '%s_new%s' % (obj.name, ('__' + suffix) if suffix else '')
@@ -1272,6 +1290,20 @@ class Lowerer:
         text = self.raii(v, t, name, ind, text)
         return self.with_temps_decl(mark, ind, text)
 
+    def side_effect_free(self, n):
+        k = n.get('kind')
+        if k in ('CallExpr', 'CXXMemberCallExpr', 'CXXOperatorCallExpr', 'CXXConstructExpr', 'LambdaExpr', 'CompoundAssignOperator', 'CXXNewExpr'): return False
+        if k == 'UnaryOperator' and n.get('opcode') in ('++', '--'): return False
+        if k == 'BinaryOperator' and n.get('opcode') == '=': return False
+        return all(self.side_effect_free(c) for c in n.get('inner', []) if isinstance(c, dict))
+
+    def literal_only(self, n):
+        k = n.get('kind')
+        if k in ('IntegerLiteral', 'CharacterLiteral', 'StringLiteral', 'CXXBoolLiteralExpr', 'FloatingLiteral'): return True
+        if k in ('DeclRefExpr', 'CXXThisExpr', 'CallExpr', 'CXXMemberCallExpr', 'LambdaExpr'): return False
+        inner = [c for c in n.get('inner', []) if isinstance(c, dict) and c.get('kind')]
+        return bool(inner) and all(self.literal_only(c) for c in inner)
+
     def call_dependent(self, n):
         """does the expression read a parameter, a local variable or *this (so that its value can differ between calls)?"""
         k = n.get('kind')
@@ -1471,7 +1503,7 @@ class Lowerer:
 
     # ------------------------------------------------------------------ functions
     def param_decl(self, p):
-        t = ct(p); name = self.var_name(p) if p.get('name') else '_unused%s' % p['id'][-3:]
+        t = ct(p); name = self.var_name(p) if p.get('name') else '_anon%s' % p['id'][-4:]
         self.scope_ids.add(p['id'])
         if t.is_ref:
             const = is_const(t.q)
